@@ -103,6 +103,70 @@ def _helper_summary(repo, qual, skip):
     return out
 
 
+_VALIDATORS = {}
+
+
+def _validation_summary(repo, qual, skip):
+    """(params, kwonly, default terms, [(exception term, [guard terms])]) of a helper that only tests
+    and raises (no loops, no stores, no other statements with effects), or None."""
+    key = (repo.root, qual)
+    if key in _VALIDATORS:
+        return _VALIDATORS[key]
+    if key in _HELPERS_BUSY:
+        return None
+    _HELPERS_BUSY.add(key)
+    out = None
+    try:
+        fi = repo.funcs[qual]
+        a = fi.node.args
+        if not (fi.parent is not None or fi.node.decorator_list or a.vararg or a.kwarg
+                or any(isinstance(n, (ast.Yield, ast.YieldFrom, ast.Await)) for n in ast.walk(fi.node))):
+            fa = FuncAnalysis(repo, fi, versioned=False)
+            raises, ok = [], True
+            for e in fa.events:
+                if e.d.get('in_lambda') or e.d.get('in_comp'):
+                    continue
+                if e.kind == 'raise':
+                    raises.append(e)
+                elif e.kind == 'return':
+                    if e.value != T.NONE:
+                        ok = False
+                elif e.kind in ('yield', 'yield_from', 'store_sub', 'store_attr', 'aug_sub', 'aug_attr', 'del', 'delattr',
+                                'store_global', 'store_nonlocal', 'break', 'continue', 'with') or (e.kind == 'call' and e.stmt):
+                    ok = False
+                if e.loops or e.trys:
+                    ok = False
+            if ok and raises and not fa.unrecognised:
+                items = []
+                for e in raises:
+                    gs = [(c if pol else T.not_(c)) for c, pol in e.guards]
+                    terms = [e.exc] + gs
+                    if any(isinstance(x, tuple) and x and (x[0] in ('mut', 'nth', 'unk', 'phi', 'after', 'elem')
+                                                           or (x[0] == 'g' and isinstance(x[1], str) and x[1].startswith('$')))
+                           for t in terms for x in T.walk(t)):
+                        items = None
+                        break
+                    items.append((e.exc, gs))
+                if items:
+                    params = [x.arg for x in list(a.posonlyargs) + list(a.args)][skip:]
+                    kwonly = [x.arg for x in a.kwonlyargs]
+                    dterms = {}
+                    pos = list(a.posonlyargs) + list(a.args)
+                    for arg, d in list(zip(pos[len(pos) - len(a.defaults):], a.defaults)) + \
+                            [(x, d) for x, d in zip(a.kwonlyargs, a.kw_defaults) if d is not None]:
+                        try:
+                            dterms[arg.arg] = T.C(ast.literal_eval(d))
+                        except (ValueError, SyntaxError, TypeError):
+                            dterms[arg.arg] = None
+                    out = (params, kwonly, dterms, items)
+    except Exception:
+        out = None
+    finally:
+        _HELPERS_BUSY.discard(key)
+    _VALIDATORS[key] = out
+    return out
+
+
 def _ways(stmts, in_loop=False):
     """(set of ways the block can be left early, may fall through) - syntactic."""
     ks = set()
@@ -444,8 +508,10 @@ class FuncAnalysis:
         v = s.value
         if isinstance(v, ast.Constant):
             return None     # docstring
+        self._pending_path_guards = 0
         t = self.ev(v, stmt=True)
-        return None
+        n, self._pending_path_guards = self._pending_path_guards, 0
+        return None, n
 
     def _s_Pass(self, s):
         return None
@@ -1306,6 +1372,49 @@ class FuncAnalysis:
                 bound[p] = dterms[p]
         return T.subst(body, {T.V(k): v for k, v in bound.items()})
 
+    def _transplant_validation_helper(self, node, f, args, kws):
+        """`_check_x(a, b)` as a statement, where _check_x is a helper unknown to the checker that only
+        tests and raises: its refusals become refusals of the caller (same conditions, arguments
+        substituted), followed by the path condition that none of them fired."""
+        repo = self.repo
+        if f[0] == 'g' and f[1] in repo.funcs and repo.funcs[f[1]].cls is None:
+            q, skip = f[1], 0
+        elif f[0] == 'attr' and f[1] == T.V('self') and self.fi.cls is not None and (self.fi.cls + '.' + f[2]) in repo.funcs:
+            q, skip = self.fi.cls + '.' + f[2], 1
+        else:
+            return False
+        if q.rsplit('.', 1)[1] in _known_names() or q == self.fi.qualname:
+            return False
+        sm = _validation_summary(repo, q, skip)
+        if sm is None:
+            return False
+        params, kwonly, dterms, raises = sm
+        if any(a[0] == 'star' for a in args) or any(k[0] != 'kw' for k in kws) or len(args) > len(params):
+            return False
+        bound = dict(zip(params, args))
+        for k in kws:
+            if (k[1] not in params and k[1] not in kwonly) or k[1] in bound:
+                return False
+            bound[k[1]] = k[2]
+        for p in params + kwonly:
+            if p not in bound:
+                if dterms.get(p) is None:
+                    return False
+                bound[p] = dterms[p]
+        m = {T.V(k): v for k, v in bound.items()}
+        for exc, guards in raises:
+            gs = [T.subst(g, m) for g in guards]
+            for g in gs:
+                self._guards.append((g, True, 'if'))
+            self._emit('raise', node, exc=T.subst(exc, m), cause=None)
+            for _ in gs:
+                self._guards.pop()
+            if gs:
+                conj = gs[0] if len(gs) == 1 else T.nary('and', tuple(gs))
+                self._guards.append((conj, False, 'raise'))
+                self._pending_path_guards = getattr(self, '_pending_path_guards', 0) + 1
+        return True
+
     def _canon_args(self, f, args, kws):
         """One spelling per call of a package-local function: keyword arguments that name the next
         positional parameters are passed positionally (f(a, y=b) == f(a, b))."""
@@ -1364,6 +1473,8 @@ class FuncAnalysis:
                                           for kv in v[1]):
                     for kv in v[1]:
                         kws.append(T.kw(kv[1][1], kv[2]))
+                elif v[0] == 'call' and v[1] == T.G('$new_dict') and self.versioned:
+                    pass        # **{} of a dict that was never filled adds nothing
                 else:
                     kws.append(('dstar', v))
             else:
@@ -1373,6 +1484,8 @@ class FuncAnalysis:
             inl = self._inline_unknown_helper(f, args, kws)
             if inl is not None:
                 return inl
+        elif self._transplant_validation_helper(n, f, args, kws):
+            return T.NONE
         t = T.call(f, args, kws)
         # calls that consume state (next(it), x.pop(), f.readline() ...) denote a new value each
         # time they are evaluated: number the evaluations of one call term
